@@ -8,69 +8,47 @@ use program_structure::file_definition::FileID;
 pub fn preprocess(expr: &str, file_id: FileID) -> Result<String, Box<Report>> {
     let mut pp = String::new();
     let mut state = 0;
-    let mut loc = 0;
     let mut block_start = 0;
 
-    let mut it = expr.chars();
-    while let Some(c0) = it.next() {
-        loc += 1;
-        match (state, c0) {
-            (0, '/') => {
-                loc += 1;
-                match it.next() {
-                    Some('/') => {
-                        state = 1;
-                        pp.push(' ');
-                        pp.push(' ');
-                    }
-                    Some('*') => {
-                        block_start = loc;
-                        state = 2;
-                        pp.push(' ');
-                        pp.push(' ');
-                    }
-                    Some(c1) => {
-                        pp.push(c0);
-                        pp.push(c1);
-                    }
-                    None => {
-                        pp.push(c0);
-                        break;
-                    }
-                }
+    // Locations are byte offsets into the original source.
+    let mut it = expr.char_indices().peekable();
+    while let Some((loc, c0)) = it.next() {
+        match (state, c0, it.peek().map(|(_, c1)| *c1)) {
+            (0, '/', Some('/')) => {
+                it.next();
+                state = 1;
+                pp.push(' ');
+                pp.push(' ');
             }
-            (0, _) => pp.push(c0),
-            (1, '\n') => {
+            (0, '/', Some('*')) => {
+                it.next();
+                block_start = loc;
+                state = 2;
+                pp.push(' ');
+                pp.push(' ');
+            }
+            (0, _, _) => pp.push(c0),
+            (1, '\n', _) => {
                 pp.push(c0);
                 state = 0;
             }
-            (2, '*') => {
-                loc += 1;
-                match it.next() {
-                    Some('/') => {
-                        pp.push(' ');
-                        pp.push(' ');
-                        state = 0;
-                    }
-                    Some(c) => {
-                        pp.push(' ');
-                        for _i in 0..c.len_utf8() {
-                            pp.push(' ');
-                        }
-                    }
-                    None => {
-                        let error =
-                            UnclosedCommentError { location: block_start..block_start, file_id };
-                        return Err(Box::new(error.into_report()));
-                    }
-                }
+            (2, '*', Some('/')) => {
+                it.next();
+                pp.push(' ');
+                pp.push(' ');
+                state = 0;
             }
-            (_, c) => {
+            (_, c, _) => {
                 for _i in 0..c.len_utf8() {
                     pp.push(' ');
                 }
             }
         }
+    }
+    if state == 2 {
+        // The block comment is never closed.
+        let error = UnclosedCommentError { location: block_start..block_start + 2, file_id };
+        return Err(Box::new(error.into_report()));
     }
     Ok(pp)
 }
